@@ -25,13 +25,31 @@ Five parts (each counted separately in the evidence):
  C2. DIRECT ORACLE: `Sampler(strong-simulation processor).samples / sample_count(n)` (results CONVERTED from
     probabilities) on 5..32-mode Haar and balanced interferometers with n of the order of the number of outcomes:
     the total is exactly min(n, max_shots_per_call), every state legal.
- D. VALIDATION (not proof): seed reproducibility — every Python-layer random path run twice under
-    `pcvl.random_seed(s)` and compared bit for bit; the seeds 0, 1 and 2**32-1 are part of every run.
+ D. VALIDATION (not proof): seed reproducibility — every Python-layer random path run under `pcvl.random_seed(s)`,
+    disturbed under another seed, run again under `s` and compared bit for bit (distinguishability tags renamed by
+    order of appearance); once on objects built anew for every run and once on LONG-LIVED objects (one Source /
+    Processor / Sampler / detector list / table used for all three runs: state that outlives `random_seed`).
+    `Processor.samples` / `Sampler.samples` are included on a mode-re-routing circuit, where the native bulk sampler
+    has no random decision to take.  The seeds 0, 1 and 2**32-1 are part of every run.
  E. VALIDATION (not proof), a *statistical test*: goodness of fit of samples against the distribution
     strong simulation of the same processor computes, and of the reported performances.  Thresholds are
     finite-sample bounds (Chernoff/KL bound on every binomial cell, Bretagnolle-Huber-Carol bound on the
     L1 distance, Hoeffding for the performances), Bonferroni-corrected so that the whole run false-alarms
-    with probability <= 1e-9 on a correct implementation.
+    with probability <= 1e-9 on a correct implementation.  The performances are compared on a number of shots fixed
+    before the loop starts (counted by the progress callback), also for an effective photon filter of 2 or more and
+    on processors built so that a sizeable part of the shots fails BOTH the photon filter and the selection (lossy
+    detectors + filter >= 2 + herald / post-selection; the exact probability of such a shot is computed by strong
+    simulation of the open experiment and is a coverage counter).
+ E3. the same test on the detector stage alone: `simulate_detectors_sample` against `simulate_detectors`, a SERIES of
+    detector lists on one Fock state in one process, successive lists keeping the detectors' names and changing their
+    parameters (wires, max detections, reflectivity) or building the same description again.
+ E4. the same test on SERIES of processors run one after the other in one worker process: new processors whose
+    detectors keep their names, new processors differing in noise / filter / post-selection / input, and ONE
+    processor re-configured through its setters between two requests (reference: a fresh strong-simulation
+    processor of the new configuration).
+ A also holds a DIRECT ORACLE on the two performances: when nothing but the limits can stop the scripted loop, the
+    reported physical / logical performances must be the observed frequencies (shots with at least `filter` photons
+    outside the heralded modes among the shots taken, times the source's pre-performance; selected among those).
 """
 from __future__ import annotations
 
@@ -345,23 +363,57 @@ def direct_oracle_scripted(case, obs):
     if case["cb"] and sh is not None and eff_filter(case) < 2 and len(obs["progress"]) > sh:
         return ("more-shots-than-max-shots", f"{len(obs['progress'])} loop iterations for max_shots={sh}")
     # the script dictates the shots: replay it naively (the property, not the model) when nothing but the
-    # limits can stop the loop
-    if (not case["cb"] or not any(case["cancels"])) and ms is not None and eff_filter(case) < 2 and (
-            not case["source"] or (case["first"] is None and all(b is None for b in case["batches"]))):
-        n_sel = shots = 0
-        seq = letters_of(case) + ["s"] * pad_len(case)
-        for o in seq:
-            if n_sel >= ms or (sh is not None and shots >= sh):
-                break
-            shots += 1
-            if o == "s":
-                n_sel += 1
-        if ms == 0 or (sh is not None and sh == 0):
-            n_sel = 0
+    # limits can stop the loop (the shot limit is rescaled only for an effective filter >= 2)
+    nv = naive_replay(case)
+    if nv is not None:
+        n_sel, n_log, n_phys = nv
         if obs["n"] != n_sel:
             return ("wrong-sample-count", f"{obs['n']} samples returned, the scripted outcomes select {n_sel} "
                                           f"within max_samples={ms}, max_shots={sh}")
+        if n_sel > 0:
+            # the two performances are the observed frequencies of the shots taken: physical = shots holding at
+            # least `filter` photons outside the heralded modes (times what the source already discarded),
+            # logical = selected among those -- whatever the order the two tests are made in
+            shots = n_sel + n_log + n_phys
+            pre = F(case["pre"]) if case["source"] else F(1)
+            want_phys, want_log = pre * F(shots - n_phys, shots), F(n_sel, n_sel + n_log)
+            if not core.close(obs["phys"], float(want_phys)) or not core.close(obs["logical"], float(want_log)):
+                return ("performance-not-the-observed-frequency",
+                        f"{shots} shots taken: {n_phys} hold fewer than {case['filter']} photons outside the heralded "
+                        f"modes, {n_log} of the others fail heralds {case['heralds']} / post-selection {case['ps']}, "
+                        f"{n_sel} selected; source pre-performance {pre}: physical_perf should be {want_phys} = "
+                        f"{float(want_phys):.6f}, logical_perf {want_log} = {float(want_log):.6f}; reported "
+                        f"{obs['phys']!r} / {obs['logical']!r}")
     return None
+
+
+def naive_replay(case):
+    """(selected, logically rejected, physically rejected) among the shots the limits allow, by the documented
+    semantics of every scripted state -- None when something else than the limits can stop the loop (cancel,
+    scripted batch sizes) or when the shot limit is rescaled (effective filter >= 2 with a shot limit)."""
+    ms, sh = case["ms"], case["sh"]
+    if case["cb"] and any(case["cancels"]):
+        return None
+    if ms is None or not (eff_filter(case) < 2 or sh is None):
+        return None
+    if case["source"] and not (case["first"] is None and all(b is None for b in case["batches"])):
+        return None
+    cnt = {"s": 0, "l": 0, "p": 0}
+    if ms == 0 or (sh is not None and sh == 0):
+        return 0, 0, 0
+    shots = 0
+    for o in letters_of(case) + ["s"] * pad_len(case):
+        if cnt["s"] >= ms or (sh is not None and shots >= sh):
+            break
+        shots += 1
+        cnt[o] += 1
+    return cnt["s"], cnt["l"], cnt["p"]
+
+
+def fails_both(case, st):
+    """Too few photons AND rejected by the heralds / the post-selection."""
+    her = heralds_of(case)
+    return py_class(case, st) == "p" and not (all(st[m] == v for m, v in her.items()) and py_postselect(case, st))
 
 
 def compare_scripted(case, obs, rep):
@@ -479,6 +531,11 @@ def handle_scripted(chk, case, rep=None, label="random"):
         chk.branch("distribution-route")
     if case["ps"]:
         chk.branch("scripted-post-selection")
+    nv = naive_replay(case)
+    if nv is not None and nv[0] > 0 and "raise" not in obs:
+        chk.branch("scripted-performance-oracle")
+        if any(fails_both(case, case["pool"][k]) for k in case["script"][:sum(nv)]):
+            chk.branch("scripted-shot-failing-both-tests")
     chk.count("scripted_" + label + "_ms", case["ms"])
     chk.count("scripted_" + label + "_sh", case["sh"])
     chk.count("scripted_len", min(len(case["script"]), 40) // 5 * 5)
@@ -537,7 +594,19 @@ def exhaustive_scripted(chk, max_len):
                 for ms in lims:
                     for sh in lims:
                         cases.append(base_case(ms=ms, sh=sh, heralds=heralds, script=list(seq), cb=True))
-    prepare_scripted(chk, cases[:1] + cases[-1:])
+    # a third alphabet: {state failing BOTH the photon filter and the selection, logic, sel} (3 modes, herald
+    # expecting 0 photon on mode 1, post-selection on mode 0, filter 1; the empty state fails both)
+    both_pool = [[1, 0, 0], [1, 1, 0], [0, 0, 0]]
+    n_before = len(cases)
+    for L in range(1, max_len - 1):
+        for seq in itertools.product((2, 1, 0), repeat=L):
+            if seq[-1] == 0:
+                continue
+            for ms in lims:
+                for sh in lims:
+                    cases.append(base_case(ms=ms, sh=sh, m=3, heralds=[[1, 0]], ps="[0] > 0", pool=both_pool,
+                                           script=list(seq), cb=True))
+    prepare_scripted(chk, cases[:1] + cases[n_before - 1:n_before + 1])
     reps = chk.lean.ask_many([lean_req_scripted(c) for c in cases])
     for c, r in zip(cases, reps):
         handle_scripted(chk, c, r, label="exh")
@@ -545,7 +614,8 @@ def exhaustive_scripted(chk, max_len):
     chk.extra["scripted_exhaustive_rule"] = (
         f"all outcome sequences over {{phys,logic,sel}} of length <= {max_len} (herald expecting 0 photon) resp. "
         f"<= {max_len - 2} (herald expecting 1 photon), canonical: not ending in sel, the script being padded "
-        f"with sel, x (max_samples, max_shots) in {{0,1,2,3,4,None}}^2, filter 1, callback on")
+        f"with sel, x (max_samples, max_shots) in {{0,1,2,3,4,None}}^2, filter 1, callback on; plus the sequences of "
+        f"length <= {max_len - 2} over {{fails both the filter and the selection, logic, sel}}")
 
 
 def gen_scripted(rng, big):
@@ -1223,17 +1293,113 @@ def gen_proc_spec(rng, kind=None):
     return spec
 
 
+def make_detector(desc):
+    """Detector descriptions: None (no detector = PNR) | 'pnr' | 'threshold' | 'ppnr2' (= 'ppnr:2') | 'ppnr:W' |
+    'ppnr:W:MAX' (interleaved, W wires, at most MAX read) | 'bsppnr:L:R' (L beam-splitter layers of reflectivity R).
+    Every 'ppnr:…' is NAMED "PPNR" and every 'bsppnr:L:…' "BS-PPNR<L>" whatever its other parameters."""
+    from perceval.components import Detector, BSLayeredPPNR
+    if desc is None:
+        return None
+    if desc == "pnr":
+        return Detector.pnr()
+    if desc == "threshold":
+        return Detector.threshold()
+    if desc == "ppnr2":
+        return Detector.ppnr(2)
+    f = desc.split(":")
+    if f[0] == "ppnr":
+        return Detector.ppnr(int(f[1]), int(f[2]) if len(f) > 2 else None)
+    if f[0] == "bsppnr":
+        return BSLayeredPPNR(int(f[1]), float(f[2]))
+    raise ValueError(desc)
+
+
+def det_cap(desc):
+    """largest count the detector can read"""
+    if desc is None or desc == "pnr":
+        return 10 ** 9
+    if desc == "threshold":
+        return 1
+    if desc == "ppnr2":
+        return 2
+    f = desc.split(":")
+    if f[0] == "ppnr":
+        return int(f[2]) if len(f) > 2 else int(f[1])
+    return 2 ** int(f[1])
+
+
+def noise_model(nz):
+    from perceval.utils import NoiseModel
+    if not nz:
+        return None
+    return NoiseModel(brightness=nz["brightness"], transmittance=nz["transmittance"], g2=nz["g2"],
+                      indistinguishability=nz["indistinguishability"], g2_distinguishable=nz["g2_distinguishable"])
+
+
+def gen_bunching_selected_spec(rng):
+    """Shots that fail BOTH the photon filter and the logical selection: lossy (threshold / pseudo-PNR) detectors
+    on every mode merge bunched photons, a filter of 2 or more asks for most of them, a herald and / or a
+    post-selection rejects part of the outcomes.  The performances then depend on which rejection a shot failing
+    both is booked under (strong simulation: the physical one)."""
+    m = rng.choice([3, 4, 4])
+    n = 3 if m == 4 or rng.random() < 0.7 else 2
+    spec = {"kind": "bunching-selected", "m": m, "useed": rng.randrange(10 ** 6), "heralds": {}, "ps": None,
+            "filter": None, "noise": None, "detectors": None}
+    modes = list(range(m))
+    rng.shuffle(modes)
+    inp = [0] * m
+    for i in modes[:n]:
+        inp[i] = 1
+    h = modes[-1] if rng.random() < 0.6 else modes[0]
+    v = inp[h] if rng.random() < 0.7 else 1 - inp[h]
+    inp[h] = v
+    spec["heralds"] = {str(h): v}
+    n_user = sum(inp) - v
+    if n_user < 2:
+        free = [i for i in range(m) if i != h and inp[i] == 0]
+        inp[free[0]] = 1
+        n_user += 1
+    if rng.random() < 0.5:
+        a = rng.choice([i for i in range(m) if i != h])
+        spec["ps"] = rng.choice([f"[{a}] < 2", f"[{a}] == 1", f"[{a}] > 0", f"[{a}] == 0"])
+    spec["input"] = inp
+    spec["filter"] = rng.randint(2, n_user)
+    kinds = rng.choice([["threshold"], ["threshold"], ["threshold", "ppnr2"], ["threshold", "ppnr:3:2", "bsppnr:1:0.5"]])
+    spec["detectors"] = [rng.choice(kinds) for _ in range(m)]
+    if rng.random() < 0.3:
+        spec["noise"] = {"brightness": rng.choice([1.0, 0.9]), "transmittance": rng.choice([0.9, 0.8]),
+                         "g2": rng.choice([0.0, 0.05]), "indistinguishability": rng.choice([1.0, 0.8]),
+                         "g2_distinguishable": rng.random() < 0.5}
+    return spec
+
+
+def prob_failing_both(spec):
+    """Exact probability (strong simulation of the same experiment WITHOUT heralds / post-selection / filter, all
+    modes kept) that a detected state holds too few photons AND is rejected by the heralds / the post-selection."""
+    from perceval.utils import BasicState, PostSelect
+    her = {int(k): v for k, v in spec["heralds"].items()}
+    open_spec = dict(spec, heralds={}, ps=None, filter=0)
+    ref, _, _ = reference(open_spec)
+    ps = PostSelect(spec["ps"]) if spec["ps"] else None
+    need = (spec["filter"] or 0)
+    tot = 0.0
+    for st, pr in ref.items():
+        # strong simulation compares the photon number of the whole state with filter + expected heralded photons
+        # (ISimulator.min_detected_photons_filter): on states meeting the heralds this is "photons outside the
+        # heralded modes < filter"
+        few = sum(st) < need + sum(her.values())
+        sel = all(st[k] == v for k, v in her.items()) and (ps is None or bool(ps(BasicState(list(st)))))
+        if few and not sel:
+            tot += pr
+    return tot
+
+
 def build_proc(spec, backend):
     import perceval as pcvl
     from perceval.utils import BasicState, PostSelect, NoiseModel
     from perceval.components import Detector
     from . import gens
-    noise = None
-    if spec["noise"]:
-        nz = spec["noise"]
-        noise = NoiseModel(brightness=nz["brightness"], transmittance=nz["transmittance"], g2=nz["g2"],
-                           indistinguishability=nz["indistinguishability"],
-                           g2_distinguishable=nz["g2_distinguishable"])
+    noise = noise_model(spec["noise"])
     p = pcvl.Processor(backend, spec["m"], noise=noise)
     if spec.get("unitary") == "dft":
         # a balanced interferometer: one photon leaves on every mode with the same probability
@@ -1247,8 +1413,8 @@ def build_proc(spec, backend):
         p.add_herald(int(h), v)
     if spec["detectors"]:
         for i, d in enumerate(spec["detectors"]):
-            det = {"pnr": Detector.pnr, "threshold": Detector.threshold, "ppnr2": lambda: Detector.ppnr(2)}[d]()
-            p.add(i, det)
+            if d is not None:
+                p.add(i, make_detector(d))
     if spec["ps"]:
         p.set_postselection(PostSelect(spec["ps"]))
     if spec["filter"] is not None:
@@ -1279,7 +1445,7 @@ def legal_sample(spec, st):
                 f"(which does not count heralded modes)")
     if spec["detectors"]:
         for i, d in enumerate(spec["detectors"]):
-            cap = {"pnr": 10 ** 9, "threshold": 1, "ppnr2": 2}[d]
+            cap = det_cap(d)
             if full[i] > cap:
                 return f"mode {i} reads {full[i]} on a {d} detector"
     if spec["ps"] and not PostSelect(spec["ps"])(BasicState(full)):
@@ -1291,6 +1457,7 @@ LIMS = [0, 1, 2, 5, 17, None]
 SHOT_BUDGET_FACTOR = 4   # a configuration takes at most about 4 n shots for a request of n samples
 GOF_TIMEOUT = 600   # seconds for one configuration (a sampler that never selects anything would not return)
 MIN_YIELD = 0.03   # processors that select less than this are not asked for a fixed number of samples
+MIN_BOTH = 0.08    # "a sizeable part of the shots fails both the photon filter and the selection"
 
 
 def spec_yield(spec):
@@ -1507,125 +1674,199 @@ def strong_part(chk, n_specs, reps):
 # ------------------------------------------------------------------------------------------------
 # D. seed reproducibility
 # ------------------------------------------------------------------------------------------------
+def canon_tags(items):
+    """Textual form of a list of annotated states where the distinguishability tags `_:N` are renamed by order of
+    first appearance over the whole list (tag 0, the signal tag, is kept): their absolute numbering continues from
+    one call to the next on the same Source, it is a label, not a random choice."""
+    import re
+    names = {}
+
+    def rename(match):
+        tag = match.group(1)
+        if tag == "0":
+            return "_:0"
+        return "_:" + names.setdefault(tag, "t%d" % len(names))
+    return [re.sub(r"_:(\d+)", rename, str(x)) for x in items]
+
+
 def seed_paths():
-    """name -> callable returning a canonical (hashable/comparable) value that depends on the RNGs."""
+    """name -> (setup, run): `setup()` builds the objects the path works on, `run(objects)` returns a canonical
+    (comparable) value that depends on the random generators.  A path is checked on FRESH objects (setup before every
+    run) and on LONG-LIVED ones (one setup, every run on the same objects, re-seeded in between)."""
     import numpy as np
     import perceval as pcvl
+    from perceval.algorithm import Sampler
     from perceval.utils import BasicState, BSDistribution, BSCount, NoiseModel
     from perceval.utils import conversion
-    from perceval.components import Source, Detector
+    from perceval.components import Source, Detector, BSLayeredPPNR
     from perceval.simulators._simulate_detectors import simulate_detectors_sample
     from perceval.backends import Clifford2017Backend
 
     def src(**kw):
         return Source.from_noise_model(NoiseModel(**kw))
 
-    def source_no_filter():
-        s = src(brightness=0.7, transmittance=0.8, g2=0.1, indistinguishability=0.8)
-        return [str(x) for x in s.generate_samples(60, BasicState([1, 0, 1, 1]), 0)]
+    def source_path(filt, **kw):
+        return (lambda: src(**kw),
+                lambda s: canon_tags(s.generate_samples(60, BasicState([1, 0, 1, 1]), filt)))
 
-    def source_filter():
-        s = src(brightness=0.7, transmittance=0.8, g2=0.1, indistinguishability=0.8, g2_distinguishable=False)
-        return [str(x) for x in s.generate_samples(60, BasicState([1, 0, 1, 1]), 2)]
-
-    def detectors():
-        dets = [Detector.ppnr(3), Detector.threshold(), Detector.ppnr(2, 1)]
-        return [str(simulate_detectors_sample(BasicState([3, 2, 2]), dets)) for _ in range(40)]
-
-    def dist_sample():
+    def dist5():
         d = BSDistribution()
         for i, st in enumerate(key_states(5)):
             d[st] = (i + 1) / 15
-        return [str(x) for x in d.sample(80, non_null=False)]
+        return d
 
-    def random_unitary():
-        return pcvl.Matrix.random_unitary(4).tolist()
+    def dist6():
+        d = BSDistribution()
+        for i, st in enumerate(key_states(6)):
+            d[st] = (i + 1) / 21
+        return d
 
-    def random_circuit():
-        c = pcvl.GenericInterferometer(3, lambda i: pcvl.BS(theta=pcvl.P(f"t{i}")) // pcvl.PS(pcvl.P(f"p{i}")))
-        u = pcvl.Unitary.random(3) if hasattr(pcvl.Unitary, "random") else pcvl.Unitary(pcvl.Matrix.random_unitary(3))
-        return np.asarray(u.compute_unitary()).tolist()
+    def count4():
+        c = BSCount()
+        for i, st in enumerate(key_states(4)):
+            c[st] = 3 * i + 1
+        return c
 
-    def one_at_a_time():
+    def clifford():
         from . import gens
         b = Clifford2017Backend()
         b.set_circuit(pcvl.Unitary(pcvl.Matrix(gens.haar(4, 11))))
         b.set_input_state(BasicState([1, 1, 0, 1]))
-        return [str(b.sample()) for _ in range(40)]
+        return b
 
-    def p2sc():
-        d = BSDistribution()
-        for i, st in enumerate(key_states(6)):
-            d[st] = (i + 1) / 21
-        r = conversion.probs_to_sample_count(d, 1001)
-        return sorted((str(k), int(v)) for k, v in r.items())
+    def random_circuit(_):
+        u = pcvl.Unitary.random(3) if hasattr(pcvl.Unitary, "random") else pcvl.Unitary(pcvl.Matrix.random_unitary(3))
+        return np.asarray(u.compute_unitary()).tolist()
 
-    def p2s():
-        d = BSDistribution()
-        for i, st in enumerate(key_states(6)):
-            d[st] = (i + 1) / 21
-        return [str(x) for x in conversion.probs_to_samples(d, 50)]
+    def noisy_processor():
+        return build_proc({"kind": "noisy", "m": 3, "useed": 5, "heralds": {}, "ps": None, "filter": 1,
+                           "noise": {"brightness": 0.6, "transmittance": 0.8, "g2": 0.1, "indistinguishability": 0.7,
+                                     "g2_distinguishable": True}, "detectors": None, "input": [1, 1, 0]},
+                          "CliffordClifford2017")
 
-    def sc2s():
-        c = BSCount()
-        for i, st in enumerate(key_states(4)):
-            c[st] = 3 * i + 1
-        return [str(x) for x in conversion.sample_count_to_samples(c, 50)]
+    def fixed_route_processor(filt, detectors=False):
+        # a circuit that only re-routes the modes: the native bulk sampler has no random decision to take, every
+        # random choice of Processor.samples is made by the Python layer (source emission, recombination of the
+        # tagged parts, detector outcomes)
+        def setup():
+            p = pcvl.Processor("CliffordClifford2017", 4,
+                               noise=NoiseModel(brightness=0.6, g2=0.05, indistinguishability=0.85, transmittance=0.7))
+            p.add(0, pcvl.PERM([2, 0, 3, 1]))
+            if detectors:
+                for i, d in enumerate([Detector.ppnr(3), Detector.threshold(), Detector.ppnr(2), Detector.pnr()]):
+                    p.add(i, d)
+            p.min_detected_photons_filter(filt)
+            p.with_input(BasicState([1, 0, 1, 1] if not detectors else [2, 0, 2, 1]))
+            return p
+        return setup
 
-    def noisy_processor_inputs():
-        # the Python layer of Processor.samples up to the native bulk sampler: inputs drawn from the source
-        p = build_proc({"kind": "noisy", "m": 3, "useed": 5, "heralds": {}, "ps": None, "filter": 1,
-                        "noise": {"brightness": 0.6, "transmittance": 0.8, "g2": 0.1, "indistinguishability": 0.7,
-                                  "g2_distinguishable": True}, "detectors": None, "input": [1, 1, 0]},
-                       "CliffordClifford2017")
-        return [str(x) for x in p.source.generate_samples(40, p.input_state, 1)]
-
-    return {"source.generate_samples(no filter)": source_no_filter,
-            "source.generate_samples(filter)": source_filter,
-            "simulate_detectors_sample(PPNR)": detectors,
-            "BSDistribution.sample": dist_sample,
-            "Matrix.random_unitary": random_unitary,
-            "Unitary.random": random_circuit,
-            "Clifford2017Backend.sample": one_at_a_time,
-            "probs_to_sample_count": p2sc,
-            "probs_to_samples": p2s,
-            "sample_count_to_samples": sc2s,
-            "Processor.source.generate_samples": noisy_processor_inputs}
+    return {"source.generate_samples(no filter)":
+                source_path(0, brightness=0.7, transmittance=0.8, g2=0.1, indistinguishability=0.8),
+            "source.generate_samples(filter 1)":
+                source_path(1, brightness=0.7, transmittance=0.8, g2=0.1, indistinguishability=0.8),
+            "source.generate_samples(filter)":
+                source_path(2, brightness=0.7, transmittance=0.8, g2=0.1, indistinguishability=0.8,
+                            g2_distinguishable=False),
+            "simulate_detectors_sample(PPNR)":
+                (lambda: [Detector.ppnr(3), Detector.threshold(), Detector.ppnr(2, 1)],
+                 lambda dets: [str(simulate_detectors_sample(BasicState([3, 2, 2]), dets)) for _ in range(40)]),
+            "simulate_detectors_sample(BS-PPNR)":
+                (lambda: [BSLayeredPPNR(2, 0.4), None, BSLayeredPPNR(1)],
+                 lambda dets: [str(simulate_detectors_sample(BasicState([3, 2, 2]), dets)) for _ in range(40)]),
+            "BSDistribution.sample": (dist5, lambda d: [str(x) for x in d.sample(80, non_null=False)]),
+            "Matrix.random_unitary": (lambda: None, lambda _: pcvl.Matrix.random_unitary(4).tolist()),
+            "Unitary.random": (lambda: None, random_circuit),
+            "Clifford2017Backend.sample": (clifford, lambda b: [str(b.sample()) for _ in range(40)]),
+            "probs_to_sample_count":
+                (dist6, lambda d: sorted((str(k), int(v)) for k, v in conversion.probs_to_sample_count(d, 1001).items())),
+            "probs_to_samples": (dist6, lambda d: [str(x) for x in conversion.probs_to_samples(d, 50)]),
+            "sample_count_to_samples": (count4, lambda c: [str(x) for x in conversion.sample_count_to_samples(c, 50)]),
+            "Processor.source.generate_samples":
+                (noisy_processor, lambda p: canon_tags(p.source.generate_samples(40, p.input_state, 1))),
+            "Processor.samples(filter 0)":
+                (fixed_route_processor(0), lambda p: [str(x) for x in p.samples(150)["results"]]),
+            "Processor.samples(filter 1)":
+                (fixed_route_processor(1), lambda p: [str(x) for x in p.samples(150)["results"]]),
+            "Processor.samples(filter 2)":
+                (fixed_route_processor(2), lambda p: [str(x) for x in p.samples(150)["results"]]),
+            "Processor.samples(PPNR detectors)":
+                (fixed_route_processor(1, True), lambda p: [str(x) for x in p.samples(150)["results"]]),
+            "Sampler.samples(filter 1)":
+                (lambda: Sampler(fixed_route_processor(1)()),
+                 lambda sp: [str(x) for x in sp.samples(150)["results"]]),
+            }
 
 
 # seed values a truthiness test, a sign test or a 32-bit mask would treat differently; part of EVERY run
 BOUNDARY_SEEDS = [0, 1, 2 ** 32 - 1]
 
 
-def seed_part(chk, seeds):
+def seed_triple(setup, run, s, reuse):
+    """run under seed s / disturb every generator under another seed / run under seed s again -> (first, third)"""
+    import perceval as pcvl
+    objs = setup() if reuse else None
+    pcvl.random_seed(s)
+    a = run(objs if reuse else setup())
+    pcvl.random_seed((s + 7919) % 2 ** 32)
+    run(objs if reuse else setup())
+    pcvl.random_seed(s)
+    b = run(objs if reuse else setup())
+    return a, b
+
+
+def seed_part(chk, seeds, only=None):
     import perceval as pcvl
     paths = seed_paths()
-    for name, fn in paths.items():
+    for name, (setup, run) in paths.items():
+        if only is not None and name != only:
+            continue
         outs = {}
-        for s in seeds:
-            pcvl.random_seed(s)
-            a = fn()
-            # disturb all three generators in between
-            pcvl.random_seed((s + 7919) % 2 ** 32)
-            fn()
-            pcvl.random_seed(s)
-            b = fn()
-            chk.case(("D", name, s), nontrivial=True, sample=None)
-            chk.branch("seed-path")
+        # (a whole Processor.samples request costs 50 ms: these paths run under the first two boundary seeds and the
+        #  last, random, seed only)
+        heavy = name.startswith(("Processor.samples", "Sampler.samples"))
+        for s in (seeds if not heavy or len(seeds) <= 3 else list(seeds[:2]) + list(seeds[-1:])):
+            bad = None
+            for reuse in (False, True):
+                try:
+                    with watchdog(CALL_TIMEOUT):
+                        a, b = seed_triple(setup, run, s, reuse)
+                except Exception as e:  # noqa: BLE001
+                    chk.fail("violation", "seed:exception:" + name,
+                             f"{name} raised {type(e).__name__}: {e} under pcvl.random_seed({s}) "
+                             f"({'the same objects used again' if reuse else 'fresh objects'})",
+                             {"part": "seed", "path": name, "seed": s})
+                    bad = True
+                    break
+                chk.case(("D", name, s, reuse), nontrivial=True, sample=None)
+                chk.branch("seed-path")
+                chk.branch("seed-path-long-lived-objects" if reuse else "seed-path-fresh-objects")
+                if a != b:
+                    n_diff = sum(1 for x, y in zip(a, b) if x != y) if isinstance(a, list) else 1
+                    chk.fail("violation", "seed:not-reproducible:" + name,
+                             f"{name} gives two different results under pcvl.random_seed({s}) "
+                             + ("when the SAME objects are used again after re-seeding (seed, run, seed, run on one "
+                                "Source / Processor / detector list / table)" if reuse else
+                                "(objects built anew after every seeding)")
+                             + f": {n_diff} of {len(a) if isinstance(a, list) else 1} items differ, e.g. "
+                             + str(next(((x, y) for x, y in zip(a, b) if x != y), (a, b)) if isinstance(a, list)
+                                   else "")[:200],
+                             {"part": "seed", "path": name, "seed": s, "long_lived": reuse})
+                    bad = True
+                    break
+                if not reuse:
+                    outs[s] = json.dumps(a, default=str)
             if s in BOUNDARY_SEEDS:
                 chk.branch("seed-boundary-value-%d" % s)
             chk.count("seed_paths", name)
-            outs[s] = json.dumps(a, default=str)
-            if a != b:
-                chk.fail("violation", "seed:not-reproducible:" + name,
-                         f"{name} gives two different results under pcvl.random_seed({s})",
-                         {"part": "seed", "path": name, "seed": s})
+            if bad:
                 break
         if len(set(outs.values())) <= 1 and len(outs) > 1:
             # not random at all: the comparison above was vacuous
             chk.fail("broken", "seed:path-not-random:" + name,
                      f"{name} returned the same value for every seed: the reproducibility comparison is vacuous",
                      {"part": "seed", "path": name})
+    if only is not None:
+        return
     # informational only: bulk native sampling (multi-threaded; claimed equal in distribution only)
     spec = gen_proc_spec(pyrandom.Random(1), "noisy-selected")
     same = 0
@@ -1737,45 +1978,69 @@ def gof_worker(args):
                        ref_phys=None, ref_logical=None)
             out["secs"] = round(time.time() - t0, 2)
             return out
-        ref, rphys, rlog = reference(spec)
-        if (rphys or 0) * (rlog or 0) < MIN_YIELD and via != "processor-shots":
-            # hardly anything is selected: a request for n samples would not come back; bound the shots
-            via = out["via"] = "processor-shots"
-        p = build_proc(spec, "CliffordClifford2017")
-        # bound the work: about SHOT_BUDGET shots whatever the yield of the processor
-        y = (rphys or 0) * (rlog or 0)
-        if via != "processor-shots":
-            n = max(300, min(n, int(y * SHOT_BUDGET_FACTOR * n)))
-        out["n_eff"] = n
-        if via == "processor":
-            res = p.samples(n)
-            smp = [tuple(s) for s in res["results"]]
-            counts = _count(smp)
-        elif via == "processor-shots":
-            res = p.samples(10 * n, n)
-            smp = [tuple(s) for s in res["results"]]
-            counts = _count(smp)
-        elif via == "sampler.samples":
-            res = Sampler(p).samples(n)
-            counts = _count([tuple(s) for s in res["results"]])
-        elif via == "sampler.sample_count":
-            res = Sampler(p).sample_count(n)
-            counts = {tuple(k): int(v) for k, v in res["results"].items()}
-        else:  # sampler.probs: 10000 samples turned into frequencies by the Sampler
-            res = Sampler(p).probs()
-            nn = Sampler.PROBS_SIMU_SAMPLE_COUNT
-            counts = {tuple(k): int(round(float(v) * nn)) for k, v in res["results"].items()}
-            if any(abs(float(v) * nn - round(float(v) * nn)) > 1e-6 for v in res["results"].values()):
-                out["err"] = "Sampler.probs frequencies are not multiples of 1/PROBS_SIMU_SAMPLE_COUNT"
-        out.update(ref=list(ref.items()), counts=list(counts.items()) if isinstance(counts, dict) else counts,
-                   n=sum(counts.values()), phys=res.get("physical_perf"), logical=res.get("logical_perf"),
-                   ref_phys=rphys, ref_logical=rlog)
+        _gof_processor(spec, via, n, out)
     except Exception as e:  # noqa: BLE001
         import traceback
         out["raise"] = type(e).__name__
         out["trace"] = traceback.format_exc()[-1500:]
     out["secs"] = round(time.time() - t0, 2)
     return out
+
+
+def _gof_processor(spec, via, n, out, proc=None):
+    """Sample the processor of `spec` (a freshly built one, or `proc`: a long-lived object brought to this
+    configuration by its setters) through `via`, next to the strong-simulation reference of a FRESH processor."""
+    from perceval.algorithm import Sampler
+    ref, rphys, rlog = reference(spec)
+    if (rphys or 0) * (rlog or 0) < MIN_YIELD and via != "processor-shots":
+        # hardly anything is selected: a request for n samples would not come back; bound the shots
+        via = out["via"] = "processor-shots"
+    p = proc if proc is not None else build_proc(spec, "CliffordClifford2017")
+    # bound the work: about SHOT_BUDGET shots whatever the yield of the processor
+    y = (rphys or 0) * (rlog or 0)
+    if via != "processor-shots":
+        n = max(300, min(n, int(y * SHOT_BUDGET_FACTOR * n)))
+    out["n_eff"] = n
+    if via == "processor":
+        res = p.samples(n)
+        smp = [tuple(s) for s in res["results"]]
+        counts = _count(smp)
+    elif via == "processor-shots":
+        # the loop iterations (= shots) are counted by the progress callback: with an effective photon filter of
+        # 2 or more the shot limit is rescaled by the source's P(n >= filter | n > 0) before the loop starts
+        seen = [0]
+
+        def cb(progress, msg):
+            if msg == "sampling":
+                seen[0] += 1
+            return None
+
+        res = p.samples(10 * n, n, progress_callback=cb)
+        out["shots"] = seen[0]
+        smp = [tuple(s) for s in res["results"]]
+        counts = _count(smp)
+    elif via == "sampler.samples":
+        res = Sampler(p).samples(n)
+        counts = _count([tuple(s) for s in res["results"]])
+    elif via == "sampler.sample_count":
+        res = Sampler(p).sample_count(n)
+        counts = {tuple(k): int(v) for k, v in res["results"].items()}
+    else:  # sampler.probs: 10000 samples turned into frequencies by the Sampler
+        res = Sampler(p).probs()
+        nn = Sampler.PROBS_SIMU_SAMPLE_COUNT
+        counts = {tuple(k): int(round(float(v) * nn)) for k, v in res["results"].items()}
+        if any(abs(float(v) * nn - round(float(v) * nn)) > 1e-6 for v in res["results"].values()):
+            out["err"] = "Sampler.probs frequencies are not multiples of 1/PROBS_SIMU_SAMPLE_COUNT"
+    out.update(ref=list(ref.items()), counts=list(counts.items()) if isinstance(counts, dict) else counts,
+               n=sum(counts.values()), phys=res.get("physical_perf"), logical=res.get("logical_perf"),
+               ref_phys=rphys, ref_logical=rlog)
+
+
+def is_plain(spec):
+    """perfect source, nothing selected, PNR detection: `samples` takes the fast path (performances 1 / 1, one
+    callback per 1000 samples)"""
+    return (not spec["noise"] and not spec["heralds"] and not spec["ps"]
+            and all(d in (None, "pnr") for d in (spec["detectors"] or [])))
 
 
 def _count(samples):
@@ -1823,11 +2088,25 @@ def judge_gof(chk, r):
     # not rescaled while the effective photon filter is below 2) and something was selected (the estimates are
     # reported as 0 otherwise); conditioning on "something selected" (probability >= 1 - exp(-5)) costs at most a
     # factor 1.01 on the false-alarm probability, covered by using alpha / 2
-    if via == "processor-shots" and r["phys"] is not None and r["ref_phys"] is not None and spec["kind"] != "perfect":
-        shots = r["n_req"]
+    if via == "processor-shots" and r["phys"] is not None and r["ref_phys"] is not None and not is_plain(spec):
+        # the number of shots is fixed before the loop starts (the request, rescaled by a constant of the source
+        # when the effective filter is 2 or more: counted by the progress callback) and the loop cannot stop on
+        # max_samples = 10 x max_shots: the bounds below hold for that fixed number
+        shots = r.get("shots") or 0
         eff = (spec["filter"] or 0) + sum(spec["heralds"].values())
+        if eff < 2 and shots != r["n_req"]:
+            return ("violation", "gof:shots-not-max-shots",
+                    f"Processor.samples({10 * r['n_req']}, max_shots={r['n_req']}) ran {shots} loop iterations "
+                    f"(effective photon filter {eff}: the shot limit is not rescaled)", replay)
+        if shots > r["n_req"]:
+            return ("violation", "gof:more-shots-than-max-shots",
+                    f"Processor.samples(max_shots={r['n_req']}) ran {shots} loop iterations", replay)
         y = (r["ref_phys"] or 0) * (r["ref_logical"] or 0)
-        if eff < 2 and n > 0 and y * shots >= 5:
+        if n > 0 and shots > 0 and y * shots >= 5:
+            if eff >= 2:
+                chk.branch("gof-performances-filter>=2")
+            if (spec.get("p_both") or 0) >= MIN_BOTH:
+                chk.branch("gof-performances-shots-failing-both-tests")
             chk.extra["gof_tests"] += 2
             e1 = hoeffding_eps(shots, ALPHA_TEST / 2) + 1e-6
             if abs(r["phys"] - r["ref_phys"]) > e1:
@@ -1937,7 +2216,407 @@ def judge_source_gof(chk, nz, inp, filt, n_samples, seed, replay):
     return None
 
 
-def gof_part(chk, n_cfg, n_samples, nproc):
+# ------------------------------------------------------------------------------------------------
+# E3. the detector stage of sampling, SEVERAL detector sets one after the other in the same process
+# ------------------------------------------------------------------------------------------------
+PPNR_WIRES = [2, 3, 5, 8]
+BSPPNR_R = [0.5, 0.9, 0.15]
+
+
+def gen_detector_series(rng):
+    """One Fock state (some mode holds 2+ photons) and a SERIES of detector lists for it: from one step to the next
+    the detector on a mode keeps its kind -- hence its NAME -- but changes its parameters (wires / max detections /
+    reflectivity), or the same description is built again as a new object.  Everything that outlives one call of
+    `simulate_detectors_sample` (a module-level table, a memo keyed by something that does not identify the
+    detector) is exercised by the later steps."""
+    m = rng.choice([1, 2, 2, 3])
+    state = [rng.choice([0, 1, 2, 2, 3, 4]) for _ in range(m)]
+    if max(state) < 2:
+        state[rng.randrange(m)] = rng.choice([2, 3])
+    big = [i for i in range(m) if state[i] >= 2]
+    fams = [rng.choice(["ppnr", "ppnr", "bsppnr:1", "bsppnr:2", "threshold", "pnr", None]) for _ in range(m)]
+    fams[rng.choice(big)] = rng.choice(["ppnr", "ppnr", "bsppnr:1", "bsppnr:2"])
+
+    def param(fam, avoid):
+        if fam == "ppnr":
+            for _ in range(20):
+                w = rng.choice(PPNR_WIRES)
+                d = f"ppnr:{w}" if rng.random() < 0.6 else f"ppnr:{w}:{rng.randint(1, w)}"
+                if d != avoid:
+                    return d
+        if fam in ("bsppnr:1", "bsppnr:2"):
+            for _ in range(20):
+                d = f"{fam}:{rng.choice(BSPPNR_R)}"
+                if d != avoid:
+                    return d
+        return fam
+
+    steps = []
+    for k in range(rng.randint(3, 5)):
+        if steps and rng.random() < 0.15:
+            steps.append(list(steps[rng.randrange(len(steps))]))      # an earlier list again (new objects)
+        else:
+            steps.append([param(f, steps[-1][i] if steps else None) for i, f in enumerate(fams)])
+    return {"state": state, "steps": steps, "seed": rng.randrange(2 ** 31),
+            "pass_type": rng.random() < 0.5}
+
+
+def detector_reference(state, descs):
+    """What strong simulation computes for the same detectors: `simulate_detectors` on the one-state distribution."""
+    from perceval.utils import BasicState, BSDistribution
+    from perceval.simulators._simulate_detectors import simulate_detectors
+    dist = BSDistribution()
+    dist[BasicState(list(state))] = 1.0
+    res, _ = simulate_detectors(dist, [make_detector(d) for d in descs])
+    return {tuple(k): float(v) for k, v in res.items()}
+
+
+def run_detector_series(case, n):
+    """-> list of (step index, reference, counts)"""
+    import perceval as pcvl
+    from perceval.utils import BasicState
+    from perceval.components.detector import get_detection_type
+    from perceval.simulators._simulate_detectors import simulate_detectors_sample
+    pcvl.random_seed(case["seed"])
+    st = BasicState(list(case["state"]))
+    out = []
+    for j, descs in enumerate(case["steps"]):
+        dets = [make_detector(d) for d in descs]
+        kind = get_detection_type(dets) if case["pass_type"] else None
+        counts = {}
+        for _ in range(n):
+            x = tuple(simulate_detectors_sample(st, dets, kind))
+            counts[x] = counts.get(x, 0) + 1
+        out.append((j, detector_reference(case["state"], descs), counts))
+    return out
+
+
+def det_series_worker(args):
+    """(cases, n) -> the runs of every case, one after the other in THIS process (a fresh one when isolated)"""
+    cases, n = args
+    silence_logger()
+    out = []
+    for case in cases:
+        try:
+            out.append(run_detector_series(case, n))
+        except Exception as e:  # noqa: BLE001
+            out.append({"raise": f"{type(e).__name__}: {e}"})
+    return out
+
+
+def isolated(fn, arg, timeout=GOF_TIMEOUT):
+    """fn(arg) in a freshly spawned process (nothing of this process's history); None on time-out"""
+    import multiprocessing as mp
+    ctx = mp.get_context("spawn")
+    with ctx.Pool(1) as pool:
+        try:
+            return pool.apply_async(fn, (arg,)).get(timeout=timeout)
+        except mp.TimeoutError:
+            return None
+        finally:
+            pool.terminate()
+
+
+def judge_detector_runs(chk, case, n, runs, replay, count=True):
+    """-> (failure or None, index of the failing step)"""
+    if isinstance(runs, dict):
+        return ("violation", "detectors:exception", f"simulate_detectors_sample raised {runs['raise']} on "
+                                                    f"{case['state']} with one of the detector lists {case['steps']}",
+                replay), None
+    for j, ref, counts in runs:
+        descs = case["steps"][j]
+        if count:
+            chk.extra["gof_tests"] = chk.extra.get("gof_tests", 0) + 1
+            chk.branch("det-series-step")
+            if j > 0:
+                prev = case["steps"][j - 1]
+
+                def name(d):
+                    return d if not isinstance(d, str) else ":".join(d.split(":")[:2 if d.startswith("bs") else 1])
+                if any(a != b and name(a) == name(b) for a, b in zip(prev, descs)):
+                    chk.branch("det-series-same-name-other-parameters")
+                if descs in case["steps"][:j]:
+                    chk.branch("det-series-same-description-new-objects")
+        for x in counts:
+            if len(x) != len(descs) or any(v > det_cap(d) for v, d in zip(x, descs)) or sum(x) > sum(case["state"]):
+                return ("violation", "detectors:illegal-detection",
+                        f"simulate_detectors_sample({case['state']}, {descs}) returned {x} (step {j} of the series "
+                        f"{case['steps']} in one process)", replay), j
+        rej = gof(ref, counts, n, ALPHA_TEST)
+        if rej:
+            return ("violation", "detectors:series-distribution-mismatch",
+                    f"STATISTICAL TEST (false-alarm <= {ALPHA_RUN:g} per run): {n} calls of simulate_detectors_sample("
+                    f"{case['state']}, {descs}) against simulate_detectors of the same detectors, AFTER the same state "
+                    f"was sampled in this process with {case['steps'][:j]}: {rej}", replay), j
+    return None, None
+
+
+def detector_series_part(chk, n_series, n_samples):
+    rng = chk.rng
+    history = []
+    for _ in range(n_series):
+        case = gen_detector_series(rng)
+        history.append(case)
+        try:
+            with watchdog(CALL_TIMEOUT):
+                runs = run_detector_series(case, n_samples)
+        except Exception as e:  # noqa: BLE001
+            runs = {"raise": f"{type(e).__name__}: {e}"}
+        res, j = judge_detector_runs(chk, case, n_samples, runs,
+                                     {"part": "det-series", "cases": list(history), "n": n_samples})
+        chk.count("det_series_steps", len(case["steps"]))
+        chk.case(("E3", tuple(case["state"]), json.dumps(case["steps"])), nontrivial=True, sample=None)
+        if res is not None and first_of(chk, res[0], res[1]):
+            chk.fail(*shrink_detector_series(chk, case, n_samples, res, j))
+
+
+def shrink_detector_series(chk, case, n, res, j):
+    """What outlives a call may live as long as the process: every candidate is run in a FRESH process.  Candidates:
+    the failing step alone, after one earlier step, the whole series; else the failure needs the earlier series of
+    this run too (the replay then holds all of them)."""
+    if j is None:
+        return res
+    cands = [[j]] + [[i, j] for i in range(j)] + [list(range(len(case["steps"])))]
+    for only in cands:
+        small = dict(case, steps=[case["steps"][i] for i in only])
+        runs = isolated(det_series_worker, ([small], n))
+        if not runs:
+            continue
+        r2, _ = judge_detector_runs(chk, small, n, runs[0], {"part": "det-series", "cases": [small], "n": n},
+                                    count=False)
+        if r2 is not None and r2[1] == res[1]:
+            return r2
+    return res
+
+
+# ------------------------------------------------------------------------------------------------
+# E4. SEVERAL processors / several requests on one processor in the same process
+# ------------------------------------------------------------------------------------------------
+def gen_series(rng, mode):
+    """A list of processor descriptions sharing circuit and size, run one after the other in ONE process.
+    mode 'detectors': new processors whose detectors keep their names and change their parameters;
+    mode 'fresh': new processors differing in noise / filter / post-selection / input;
+    mode 'mutate': ONE sampling processor whose filter / noise / post-selection / input are re-assigned between two
+    requests (the reference is a freshly built strong-simulation processor every time)."""
+    m = rng.choice([2, 3, 3])
+    useed = rng.randrange(10 ** 6)
+    inp = [1, 1] + [0] * (m - 2)
+    rng.shuffle(inp)
+    if m == 3 and rng.random() < 0.4:
+        inp = [1, 1, 1]
+    base = {"kind": "series-" + mode, "m": m, "useed": useed, "heralds": {}, "ps": None, "filter": 1, "noise": None,
+            "detectors": None, "input": inp}
+
+    def some_noise():
+        return {"brightness": rng.choice([1.0, 0.8, 0.5]), "transmittance": rng.choice([0.9, 0.6]),
+                "g2": rng.choice([0.0, 0.0, 0.1]), "indistinguishability": rng.choice([1.0, 0.9, 0.5]),
+                "g2_distinguishable": rng.random() < 0.5}
+
+    steps = []
+    k = rng.randint(3, 4)
+    if mode == "detectors":
+        if rng.random() < 0.4:
+            base["noise"] = some_noise()
+        fams = [rng.choice(["ppnr", "ppnr", "bsppnr:1", "bsppnr:2", "threshold", "pnr"]) for _ in range(m)]
+        fams[rng.randrange(m)] = rng.choice(["ppnr", "bsppnr:1"])
+        prev = None
+        for _ in range(k):
+            dets = []
+            for i, f in enumerate(fams):
+                if f == "ppnr":
+                    cand = [f"ppnr:{w}" for w in PPNR_WIRES] + ["ppnr:5:2", "ppnr:8:1"]
+                elif f.startswith("bsppnr"):
+                    cand = [f"{f}:{r}" for r in BSPPNR_R]
+                else:
+                    cand = [f]
+                cand = [c for c in cand if prev is None or c != prev[i]] or cand
+                dets.append(rng.choice(cand))
+            prev = dets
+            steps.append(dict(base, detectors=dets))
+    else:
+        if rng.random() < 0.5:
+            base["detectors"] = [rng.choice(["pnr", "threshold", "ppnr2"]) for _ in range(m)]
+        if mode == "mutate" and rng.random() < 0.4:
+            h = rng.randrange(m)
+            base["heralds"] = {str(h): base["input"][h]}
+            if sum(base["input"]) - base["input"][h] == 0:
+                base["input"] = [1] * m
+                base["heralds"] = {str(h): 1}
+        her = {int(a): v for a, v in base["heralds"].items()}
+        free = [i for i in range(m) if i not in her]
+        cur = dict(base, noise=some_noise() if rng.random() < 0.7 else None)
+        if cur["noise"] is None and mode != "mutate":
+            # (the automatic filter of a perfect source is written into the processor by its first request and
+            #  stays: on a long-lived processor the filter is always given explicitly)
+            cur["filter"] = rng.choice([1, None])
+        steps.append(cur)
+        for _ in range(k - 1):
+            cur = dict(cur)
+            what = rng.choice(["filter", "filter", "noise", "noise", "ps", "input"])
+            n_user = sum(cur["input"]) - sum(her.values())
+            if what == "filter":
+                cur["filter"] = rng.choice([f for f in range(0, n_user + 1) if f != cur["filter"]])
+            elif what == "noise":
+                cur["noise"] = some_noise()
+                if cur["filter"] is None:
+                    cur["filter"] = 1
+            elif what == "ps":
+                a = rng.choice(free)
+                cur["ps"] = None if cur["ps"] else rng.choice([f"[{a}] < 2", f"[{a}] > 0", f"[{a}] == 1"])
+            else:
+                new = list(cur["input"])
+                for _t in range(10):
+                    cand = [new[i] if i in her else rng.choice([0, 1, 1]) for i in range(m)]
+                    if cand != cur["input"] and sum(cand) - sum(her.values()) >= 1:
+                        new = cand
+                        break
+                cur["input"] = new
+                n_user = sum(new) - sum(her.values())
+                if cur["filter"] is not None and cur["filter"] > n_user:
+                    cur["filter"] = n_user
+            steps.append(cur)
+    return {"mode": mode, "steps": steps}
+
+
+def apply_step(p, prev, cur):
+    """Bring the long-lived processor `p` (built for `prev`) to the configuration `cur` through its setters."""
+    from perceval.utils import BasicState, PostSelect
+    if cur["noise"] != prev["noise"]:
+        p.noise = noise_model(cur["noise"])
+    if cur["ps"] != prev["ps"]:
+        if cur["ps"]:
+            p.set_postselection(PostSelect(cur["ps"]))
+        else:
+            p.clear_postselection()
+    if cur["input"] != prev["input"]:
+        p.with_input(BasicState([v for i, v in enumerate(cur["input"]) if str(i) not in cur["heralds"]]))
+    if cur["filter"] != prev["filter"]:
+        p.min_detected_photons_filter(cur["filter"])
+
+
+def series_worker(args):
+    """All the steps of one series in THIS process, in order.  -> list of result dicts like gof_worker's."""
+    series, n, seed = args
+    silence_logger()
+    import time
+    import perceval as pcvl
+    pcvl.random_seed(seed)
+    outs = []
+    proc = None
+    for j, spec in enumerate(series["steps"]):
+        t0 = time.time()
+        out = {"spec": spec, "via": "processor" if j % 2 == 0 else "processor-shots", "n_req": n, "seed": seed,
+               "step": j}
+        try:
+            if series["mode"] == "mutate":
+                if proc is None:
+                    proc = build_proc(spec, "CliffordClifford2017")
+                else:
+                    apply_step(proc, series["steps"][j - 1], spec)
+            _gof_processor(spec, out["via"], n, out, proc)
+        except Exception as e:  # noqa: BLE001
+            import traceback
+            out["raise"] = type(e).__name__
+            out["trace"] = traceback.format_exc()[-1500:]
+        out["secs"] = round(time.time() - t0, 2)
+        outs.append(out)
+    return outs
+
+
+def series_valid(series):
+    """every step selects a sizeable fraction (so that each request comes back) and the filter of a perfect source
+    is attainable"""
+    try:
+        return all(spec_yield(s) >= 0.05 for s in series["steps"])
+    except Exception:  # noqa: BLE001
+        return False
+
+
+def judge_series(chk, series, results, n, seed, count=True):
+    for r in results:
+        j = r["step"]
+        res = judge_gof(chk, r)
+        if count:
+            chk.branch("series-step-" + series["mode"])
+            if j > 0 and series["mode"] == "mutate":
+                prev, cur = series["steps"][j - 1], series["steps"][j]
+                for key in ("filter", "noise", "ps", "input"):
+                    if prev[key] != cur[key]:
+                        chk.branch("series-mutate-" + key)
+        if res is not None:
+            kind, sig, what, _ = res
+            how = {"detectors": "a NEW processor after processors with same-named detectors of other parameters",
+                   "fresh": "a NEW processor after other processors",
+                   "mutate": "the SAME processor object re-configured through its setters"}[series["mode"]]
+            before = [{k: s[k] for k in ("detectors", "noise", "filter", "ps", "input", "heralds")}
+                      for s in series["steps"][:j]]
+            return (kind, "series:" + sig.split(":", 1)[1],
+                    f"step {j} of a series in one process ({how}); this step: "
+                    f"{ {k: r['spec'][k] for k in ('detectors', 'noise', 'filter', 'ps', 'input', 'heralds')} }; "
+                    f"earlier steps: {before}: {what}",
+                    {"part": "series", "series": series, "n": n, "seed": seed}), j
+    return None, None
+
+
+def series_start(chk, n_series, n_samples, nproc):
+    import multiprocessing as mp
+    rng = chk.rng
+    modes = ["detectors", "mutate", "fresh", "detectors", "mutate"]
+    jobs = []
+    for i in range(n_series):
+        for _ in range(100):
+            series = gen_series(rng, modes[i % len(modes)])
+            if series_valid(series):
+                break
+        jobs.append((series, n_samples, rng.randrange(2 ** 31)))
+    if nproc > 1:
+        ctx = mp.get_context("spawn")
+        # one series = one process, used for nothing else (maxtasksperchild): the history of a step is its series
+        pool = ctx.Pool(min(nproc, len(jobs)), maxtasksperchild=1)
+        return jobs, pool, [pool.apply_async(series_worker, (j,)) for j in jobs]
+    return jobs, None, [series_worker(j) for j in jobs]
+
+
+def series_finish(chk, handle):
+    import multiprocessing as mp
+    jobs, pool, pending = handle
+    if pool is None:
+        results = pending
+    else:
+        results = []
+        for j, a in zip(jobs, pending):
+            try:
+                results.append(a.get(timeout=GOF_TIMEOUT))
+            except mp.TimeoutError:
+                results.append([{"spec": j[0]["steps"][0], "via": "processor", "n_req": j[1], "seed": j[2],
+                                 "step": 0, "timeout": True}])
+        pool.terminate()
+    for (series, n, seed), rs in zip(jobs, results):
+        res, j = judge_series(chk, series, rs, n, seed)
+        chk.count("series_mode", series["mode"])
+        chk.case(("E4", series["mode"], series["steps"][0]["useed"], len(series["steps"])), nontrivial=True,
+                 sample=None)
+        if res is not None and first_of(chk, res[0], res[1]):
+            if j is not None and j > 0 and series["mode"] != "mutate":
+                # shrink: the failing step after ONE earlier step (in a fresh process each)
+                for i in range(j):
+                    small = {"mode": series["mode"], "steps": [series["steps"][i], series["steps"][j]]}
+                    rs2 = run_series_isolated(small, n, seed)
+                    r2, _ = judge_series(chk, small, rs2, n, seed, count=False)
+                    if r2 is not None and r2[1] == res[1]:
+                        res = r2
+                        break
+            chk.fail(*res)
+
+
+def run_series_isolated(series, n, seed):
+    rs = isolated(series_worker, (series, n, seed))
+    if rs is None:
+        return [{"spec": series["steps"][0], "via": "processor", "n_req": n, "seed": seed, "step": 0, "timeout": True}]
+    return rs
+
+
+def gof_start(chk, n_cfg, n_samples, nproc, n_both=4):
     import multiprocessing as mp
     rng = chk.rng
     kinds = ["perfect", "selected", "noisy", "noisy-selected", "detectors", "everything"]
@@ -1950,14 +2629,23 @@ def gof_part(chk, n_cfg, n_samples, nproc):
             kind = "perfect"
         spec = gen_proc_spec(rng, kind)
         if via == "processor-shots":
-            # the performance estimates are tested on these: imperfect processor, shot limit not rescaled
-            # (effective photon filter below 2), a sizeable yield
+            # the performance estimates are tested on these: imperfect processor, a sizeable yield (the shots
+            # are counted by the progress callback: the limit is rescaled for an effective filter >= 2)
             shot_kinds = ["noisy-selected", "noisy", "selected", "everything", "detectors"]
             for t in range(60):
                 spec = gen_proc_spec(rng, shot_kinds[(i // len(vias) + t) % len(shot_kinds)])
-                if (spec["filter"] or 0) + sum(spec["heralds"].values()) < 2 and spec_yield(spec) >= 0.05:
+                if spec_yield(spec) >= 0.05:
                     break
         jobs.append((spec, via, n_samples, rng.randrange(2 ** 31)))
+    # performances where a sizeable part of the shots fails BOTH the photon filter and the selection
+    for i in range(n_both):
+        for t in range(200):
+            spec = gen_bunching_selected_spec(rng)
+            if spec_yield(spec) >= 0.05:
+                spec["p_both"] = prob_failing_both(spec)
+                if spec["p_both"] >= MIN_BOTH:
+                    break
+        jobs.append((spec, "processor-shots", n_samples, rng.randrange(2 ** 31)))
     if not any(j[0]["noise"] and j[0]["noise"]["indistinguishability"] < 1 for j in jobs):
         for j in jobs:
             if j[0]["noise"]:
@@ -1965,17 +2653,24 @@ def gof_part(chk, n_cfg, n_samples, nproc):
                 break
     if nproc > 1:
         ctx = mp.get_context("spawn")
-        with ctx.Pool(nproc) as pool:
-            pending = [(j, pool.apply_async(gof_worker, (j,))) for j in jobs]
-            results = []
-            for j, a in pending:
-                try:
-                    results.append(a.get(timeout=GOF_TIMEOUT))
-                except mp.TimeoutError:
-                    results.append({"spec": j[0], "via": j[1], "n_req": j[2], "seed": j[3], "timeout": True})
-            pool.terminate()
+        pool = ctx.Pool(nproc)
+        return jobs, pool, [pool.apply_async(gof_worker, (j,)) for j in jobs]
+    return jobs, None, [gof_worker(j) for j in jobs]
+
+
+def gof_finish(chk, handle):
+    import multiprocessing as mp
+    jobs, pool, pending = handle
+    if pool is None:
+        results = pending
     else:
-        results = [gof_worker(j) for j in jobs]
+        results = []
+        for j, a in zip(jobs, pending):
+            try:
+                results.append(a.get(timeout=GOF_TIMEOUT))
+            except mp.TimeoutError:
+                results.append({"spec": j[0], "via": j[1], "n_req": j[2], "seed": j[3], "timeout": True})
+        pool.terminate()
     for r in results:
         res = judge_gof(chk, r)
         spec = r["spec"]
@@ -2048,13 +2743,29 @@ def replay_one(chk, rp):
         chk.case(("E", "replay"), nontrivial=True)
         if res is not None:
             chk.fail(*res)
+    elif part == "det-series":
+        runs = [run_detector_series(c, rp["n"]) for c in rp["cases"]]
+        res = None
+        for c, r in zip(rp["cases"], runs):
+            res, _ = judge_detector_runs(chk, c, rp["n"], r, rp)
+            if res is not None:
+                break
+        chk.case(("E3", "replay"), nontrivial=True)
+        if res is not None:
+            chk.fail(*res)
+    elif part == "series":
+        rs = run_series_isolated(rp["series"], rp["n"], rp["seed"])
+        res, _ = judge_series(chk, rp["series"], rs, rp["n"], rp["seed"])
+        chk.case(("E4", "replay"), nontrivial=True)
+        if res is not None:
+            chk.fail(*res)
     elif part == "source-gof":
         res = judge_source_gof(chk, rp["noise"], rp["input"], rp["filter"], rp["n"], rp["seed"], rp)
         chk.case(("E2", "replay"), nontrivial=True)
         if res is not None:
             chk.fail(*res)
     elif part == "seed":
-        seed_part(chk, [rp.get("seed", 0), (rp.get("seed", 0) + 1) % 2 ** 32])
+        seed_part(chk, [rp.get("seed", 0), (rp.get("seed", 0) + 1) % 2 ** 32], only=rp.get("path"))
     elif part in ("count", "c2p"):
         conversions(chk, 50)
     else:
@@ -2079,8 +2790,9 @@ def run(chk: core.Check):
         "non-trivial = >= 2 states and count >= 2; B2: (table, request, keyword form, seed) with the real generators; "
         "C2: (strong-simulation processor, entry point, max_samples, max_shots_per_call, seed); "
         "C: (processor, entry point, max_samples, max_shots) with both "
-        "limits in {0,1,2,5,17,None}; D: (random path, seed); E: (processor, entry point) goodness-of-fit tests, "
-        "non-trivial = >= 1000 samples")
+        "limits in {0,1,2,5,17,None}; D: (random path, seed, fresh / long-lived objects); E: (processor, entry "
+        "point) goodness-of-fit tests, non-trivial = >= 1000 samples; E3: (Fock state, series of detector lists); "
+        "E4: (series of processor configurations, mode)")
     chk.assumptions = [
         "the scripted backend/source replace only the random draws; every line of compute_samples, "
         "_compute_samples_with_perf, _prepare_provider, SamplesProvider and _noisy_sampling runs for real",
@@ -2088,7 +2800,10 @@ def run(chk: core.Check):
         "finite-sample bounds; the reference is Processor('SLOS').probs(precision=0) of the same experiment, "
         "trusted within 1e-9 per outcome (its own correctness is C03/C04)",
         "bit-for-bit reproducibility is claimed for the Python-layer random paths only, not for the native "
-        "multi-threaded bulk sampler",
+        "multi-threaded bulk sampler (Processor.samples is compared bit for bit only on a circuit that re-routes "
+        "modes, where that sampler has nothing to decide); distinguishability tags are compared up to renaming",
+        "E3/E4: what a series can reveal is state that outlives one request inside ONE process, over series of 3-5 "
+        "steps; the reference of every step is computed by fresh strong-simulation objects",
         "probs_to_sample_count cases whose exact value lies within 1e-6 of a rounding tie (and whose float "
         "arithmetic is not exact) are compared on totals only",
     ]
@@ -2096,7 +2811,8 @@ def run(chk: core.Check):
         "stopped-by-max_samples", "stopped-by-max_shots", "cancelled", "raise:TypeError", "raise:IndexError",
         "no-loop (zero request)", "physically-rejected-shot", "logically-rejected-shot", "generator-asked-again",
         "shots-rescaled (filter>=2)", "distribution-route", "perfect-fast-path", "scripted-post-selection",
-        "physically-rejected-shot-with-photon-heralds",
+        "physically-rejected-shot-with-photon-heralds", "scripted-performance-oracle",
+        "scripted-shot-failing-both-tests",
         "p2sc-done", "p2sc-done-fallback", "p2sc-empty", "p2sc-needPicks", "count-from-keywords",
         "samples->counts", "counts->probs",
         "p2sc-many-states", "p2sc-excess-exceeds-largest-count", "p2sc-excess-spread-over-several-states",
@@ -2111,6 +2827,10 @@ def run(chk: core.Check):
         "gof-perfect", "gof-selected", "gof-noisy", "gof-noisy-selected", "gof-detectors", "gof-everything",
         "gof-tagged-inputs", "gof-performances", "gof-source-emission", "gof-source-g2", "gof-source-tagged",
         "gof-source-filtered",
+        "gof-bunching-selected", "gof-performances-filter>=2", "gof-performances-shots-failing-both-tests",
+        "det-series-step", "det-series-same-name-other-parameters", "det-series-same-description-new-objects",
+        "series-step-detectors", "series-step-mutate", "series-step-fresh",
+        "seed-path-fresh-objects", "seed-path-long-lived-objects",
     ]
     chk.lean = core.LeanDriver("C09")
     rng = chk.rng
@@ -2154,9 +2874,15 @@ def run(chk: core.Check):
     timed("D seeds", seed_part, chk,
           BOUNDARY_SEEDS + [chk.seed * 1000 + 2 + i for i in range(chk.pick(3, 10))] + [rng.randrange(2 ** 32)])
     # E
-    nproc = max(1, min(chk.pick(8, 14), (os.cpu_count() or 2) - 1))
+    # the worker processes of E and E4 run while the main process does E2 and E3
+    nproc = max(1, min(chk.pick(8, 10), (os.cpu_count() or 2) - 1))
+    gof_handle = gof_start(chk, chk.pick(18, 112), chk.pick(8000, 80000), nproc, chk.pick(4, 16))
+    series_handle = series_start(chk, chk.pick(5, 15), chk.pick(8000, 30000), chk.pick(5, 5))
     timed("E2 source emission", source_gof_part, chk, chk.pick(18, 60), chk.pick(50000, 150000))
-    timed("E goodness of fit", gof_part, chk, chk.pick(18, 112), chk.pick(8000, 80000), nproc)
+    timed("E3 detector stage, series of detector sets", detector_series_part, chk, chk.pick(6, 30),
+          chk.pick(2000, 5000))
+    timed("E4 series of processors in one process (wait)", series_finish, chk, series_handle)
+    timed("E goodness of fit (wait)", gof_finish, chk, gof_handle)
     chk.extra["part_seconds"] = secs
     chk.extra["statistical_test"] = {
         "label": "VALIDATION (statistical test, not proof)",
